@@ -174,9 +174,23 @@ def run_scenario(res: Result, seed: int) -> None:
                 else:
                     rsock = host.listen[0]
                 mark = len(sim.net.trace)
+                # another querier on the same machine: an mDNS querier (port 5353) of that address has a truncated query being
+                # held for its continuation when the legacy resolver's query arrives (its question is about a type nobody here
+                # offers, so it adds nothing to the expected answers)
+                neighbour_tc = legacy and rng.random() < 0.3
+                if neighbour_tc:
+                    sim.net.inject_now(host, R.build_query([("_nosuch._tcp.local.", 12, False)], id_=0, tc=True), (src_ip, 5353), sock=rsock)
+                    gap_tc = rng.choice([0, 0, 50, 300])
+                    if gap_tc:
+                        await sim.sleep_ms(gap_tc)
+                        now = sim.now_ms()
+                        for ident in universe:
+                            rec = R.last_seen_copy(zc.cache, probe_obj(ident))
+                            sighting[ident] = None if rec is None else (rec.created, own_ttl(ident, rec.ttl))
                 sim.net.inject_now(host, data, (src_ip, src_port), sock=rsock)
                 await sim.sleep_ms(1400)
-                qdesc = {"questions": questions, "legacy": legacy, "probe": is_probe, "v6": v6, "unicast_delivery": as_unicast, "id": qid, "bucket": bucket, "soon": soon}
+                qdesc = {"questions": questions, "legacy": legacy, "probe": is_probe, "v6": v6, "unicast_delivery": as_unicast, "id": qid, "bucket": bucket, "soon": soon,
+                         "neighbour_tc": neighbour_tc}
                 desc["queries"].append(qdesc)
                 evaluate(res, sim, host, model, questions, legacy, is_probe, now, sighting, qid, (src_ip, src_port), rsock, mark, ep, viol, qdesc, layout)
             await azc.async_close()
